@@ -263,8 +263,12 @@ func startSub(args ...string) *subAdmin {
 		go func() { cmd.Wait(); close(s.done) }()
 		deadline := time.Now().Add(10 * time.Second)
 		for time.Now().Before(deadline) {
-			if s.ping() {
-				return s
+			if s.alive() && s.ping() {
+				// (a foreign server could sit on the port if ours failed to bind it)
+				time.Sleep(10 * time.Millisecond)
+				if s.alive() {
+					return s
+				}
 			}
 			select {
 			case <-s.done:
